@@ -306,7 +306,7 @@ def check_corruptions(out, scenario, data, spans, src, rng, tier, max_decodes):
 
 def variant_kinds(prog):
     """Cross-decoding variants that apply to this program."""
-    kinds = ["ast", "params", "same", "mode2D"]
+    kinds = ["ast", "params", "same", "mode2D", "params-falsy", "params-falsy"]
     if prog.get("model"):
         kinds += ["model", "model"]
     if prog.get("modular"):
@@ -433,9 +433,7 @@ def check_cross_falsy(out, prog, base, scene, data, case, src):
     """(iii) for compile options differing only in a falsy param override.  Refusal is demanded
     only if the two compiles really give the overridden global parameter different values in
     the scenes at hand (an override that repeats what the program says anyway is not judged)."""
-    sel = case.get("falsy")
-    if sel is None:
-        return
+    sel = case.get("falsy", case["variant"] + case["cseed"])
     label, ovr = falsy_variant(prog, sel)
     try:
         other = compile_prog(prog, params=ovr)
@@ -825,10 +823,16 @@ def check_stuck(out, scenario, scene, sim, dyn, case, src):
         return
     pp = case["perturb"]
     tol = TOLS[pp["tol"] % len(TOLS)]
-    for t, want in enumerate(("float", "Vector", "int")):
-        pick = pick_dynamic(sim, pp, want)
+    # one value type per case (two recordings + two replays), rotating with the case
+    order = [(t, ("float", "Vector", "int")[t]) for t in range(3)]
+    r = case["cseed"] % 3
+    order = order[r:] + order[:r]
+    done = False
+    for t, want in order:
+        pick = None if done else pick_dynamic(sim, pp, want)
         if pick is None:
             continue
+        done = True
         i, prop = pick
         if sim.updates[i] < 2:
             out.cls("stuck:n/a:single-update")
@@ -1082,8 +1086,11 @@ def judge(case, tier="quick"):
     # (iii) cross-decoding
     kinds = variant_kinds(prog)
     kind = kinds[case["variant"] % len(kinds)]
-    check_cross(out, prog, kind, scenario, scene, data, case["seed"], src)
-    check_cross_falsy(out, prog, scenario, scene, data, case, src)
+    if kind == "params-falsy":
+        # (instead of, not in addition to, another variant: a compile is the expensive part)
+        check_cross_falsy(out, prog, scenario, scene, data, case, src)
+    else:
+        check_cross(out, prog, kind, scenario, scene, data, case["seed"], src)
     # (ii), (iv)-(vi) on simulations
     if prog["dyn"]:
         check_simulation(out, prog, scenario, scene, case, src, tier)
